@@ -1254,9 +1254,21 @@ impl ErasedNode for Node {
         debug_assert!(child2.ptr_eq(&*parent.slow_get_child(child_index2)));
 
         let parent_pci_ = parent.parent_child_indices();
+        let mut parent_pci = parent_pci_.borrow_mut();
+        if child1.ptr_eq(child2) {
+            // two dependencies on the same child: a single borrow of its index arrays
+            let child_pci_ = child1.parent_child_indices();
+            let mut child_pci = child_pci_.borrow_mut();
+            let index_of_parent_in_child1 = parent_pci.my_parent_index_in_child_at_index[child_index1 as usize];
+            let index_of_parent_in_child2 = parent_pci.my_parent_index_in_child_at_index[child_index2 as usize];
+            child_pci.my_child_index_in_parent_at_index[index_of_parent_in_child1 as usize] = child_index2;
+            child_pci.my_child_index_in_parent_at_index[index_of_parent_in_child2 as usize] = child_index1;
+            parent_pci.my_parent_index_in_child_at_index[child_index1 as usize] = index_of_parent_in_child2;
+            parent_pci.my_parent_index_in_child_at_index[child_index2 as usize] = index_of_parent_in_child1;
+            return;
+        }
         let child1_pci_ = child1.parent_child_indices();
         let child2_pci_ = child2.parent_child_indices();
-        let mut parent_pci = parent_pci_.borrow_mut();
         let mut child1_pci = child1_pci_.borrow_mut();
         let mut child2_pci = child2_pci_.borrow_mut();
 
